@@ -91,6 +91,11 @@ def build_file(lang, tag, places, r, style, run_at_end=False):
     if top:
         # a module of top-level statements whose declarations are exported: ordinary code, not imports
         lines, ind = [f"const state_{tag} = setup(\"{tag}\");"], ""
+    footer = None
+    if not py and style in ("method", "async-method"):
+        # the statements live in a class: in an arrow-function property (method) or an async method (async-method)
+        lines = [f"class Service{tag} {{", "  handle = (order, customer, region, state) => {" if style == "method" else "  async handle(order, customer, region, state) {"]
+        ind, footer = "    ", ["  };" if style == "method" else "  }", "}"]
     occ = []
     uid = 0
     for k, off in enumerate(places):
@@ -134,7 +139,9 @@ def build_file(lang, tag, places, r, style, run_at_end=False):
     if top:
         return lines, occ
     lines.append(f"{ind}return state" + end)
-    if not py:
+    if footer:
+        lines += footer
+    elif not py:
         lines.append("}")
     return lines, occ
 
